@@ -34,10 +34,9 @@ func DoRSAencrypt(block []byte, key *rsa.PublicKey) []byte {
 
 	c := big.NewInt(0).Exp(z, exponent, key.N)
 
-	res := make([]byte, 256)
-	copy(res, c.Bytes())
-
-	return res
+	// result is 256 byte number, leading zeros must be kept (copying c.Bytes() to the start of buffer moves
+	// them to the end, which is totally other number)
+	return dry.BigIntBytes(c, 2048) //nolint:gomnd size of rsa block in bits
 }
 
 // SplitPQ splits a number into two primes, while p1 < p2
